@@ -430,6 +430,13 @@ def _discharge_index(i):
             r['detail'] = (r['detail'] + '; falsified numerically at a sampled admissible input').strip('; ')
     if r.get('model') is not None:
         r['model'] = _jsonable({kk: vv for kk, vv in r['model'].items() if isinstance(kk, str)})
+        nat = getattr(ob, 'native_replay', None)
+        if nat is not None and r['status'] == 'refuted':
+            try:
+                r['native_witness'] = _jsonable(nat(r['model']))
+            except Exception as e:
+                r['native_witness'] = None
+                r['detail'] += '; native replay raised %r' % (e,)
     return ui, r
 
 
@@ -518,8 +525,10 @@ def report(prop, results, tier, seed, level, assumptions, trusted, bounded, t0, 
         m = re.search(r'\.ensures\.([^\[]+)', o['name'])
         if m:
             clause = m.group(1)
-        wit = None
+        wit = o.get('native_witness')
         for (unit, cl), f in native_fail.items():
+            if wit is not None:
+                break
             if unit == o['unit'] and clause is not None and (cl == clause or cl.split('[')[0] == clause.split('[')[0]):
                 wit = f
                 handled_native.add((unit, cl))
